@@ -615,6 +615,66 @@ def _inline_closure_calls(c, bodies, from_block):
     return n
 
 
+
+def _adt_discr_fn(d):
+    adts = {a["path"]: a for a in d.get("adts", [])}
+    for e_ in d.get("ext_enums", []):
+        adts.setdefault(e_["path"], e_)
+
+    def adt_discr(path, vi):
+        a = adts.get(path)
+        if a is not None and vi < len(a["variants"]) and a["variants"][vi].get("discr") is not None:
+            return int(a["variants"][vi]["discr"])
+        if path in ("std::option::Option", "core::option::Option", "std::result::Result", "core::result::Result", "std::ops::ControlFlow", "core::ops::ControlFlow",
+                    "core::ops::control_flow::ControlFlow"):
+            return vi
+        return None
+    return adt_discr
+
+
+def local_names(body):
+    """the user-named locals of a raw body, as `name: type` strings (parameters included)"""
+    return sorted(set("%s: %s" % (l["name"], l["ty"]) for l in body["locals"] if l.get("name")))
+
+
+def _reference_locals():
+    try:
+        with open(os.path.join(os.path.dirname(os.path.abspath(__file__)), "names.json")) as fh:
+            r = json.load(fh).get("locals")
+            return {k: set(v) for k, v in r.items()} if r is not None else None
+    except Exception:
+        return None
+
+
+def thread_new_local_joins(d, ref_locals):
+    """A named local that the reference tree's function does not have, joined from variant constructions and then matched (`let refusal = if a { Some(x) } else
+    if b { Some(y) } else { None }; if let Some(r) = refusal { return Err(r) }`), is somebody's way of writing the early returns as one table: every block that
+    builds a variant of it is sent straight to the arm that variant selects (the same jump threading as after inlining a new helper), so that the rules keep
+    reading one return per reason, each under its own test."""
+    if ref_locals is None:
+        return []
+    adt_discr = _adt_discr_fn(d)
+    done = []
+    for c in d["bodies"]:
+        if c["file"].startswith("/") or len(c["blocks"]) > 3000:
+            continue
+        ref = ref_locals.get(c["path"], set())
+        for cont in range(len(c["blocks"])):
+            cb = c["blocks"][cont]
+            t = cb["term"]
+            if t["k"] != "switch" or len(cb["stmts"]) != 1 or cb["stmts"][0]["rv"]["k"] != "discr":
+                continue
+            dest = cb["stmts"][0]["rv"]["p"]
+            if dest["proj"] or dest["l"] >= len(c["locals"]):
+                continue
+            l = c["locals"][dest["l"]]
+            if not l.get("name") or "%s: %s" % (l["name"], l["ty"]) in ref or dest["l"] <= c["nargs"]:
+                continue
+            n = _thread_returns(c, 0, cont, dest, adt_discr)
+            if n:
+                done.append((c["path"], l["name"], n))
+    return done
+
 def splice_new_helpers(d, reference):
     """A private function that the reference tree (names.json: the functions of the tree the rules were written against) does not have is a helper somebody
     extracted: it is inlined into its callers at the MIR level (locals and blocks renumbered, parameters assigned from the call's operands, every `return`
@@ -1084,6 +1144,7 @@ class Facts:
         with open(path) as fh:
             d = json.loads(canonical_closure_numbers(fh.read()))
         self.spliced = splice_new_helpers(d, _reference_functions())
+        self.threaded = thread_new_local_joins(d, _reference_locals())
         self.unrolled = unroll_array_loops(d)
         self.split_locals = split_new_struct_locals(d, _reference_adts())
         self.raw = d
